@@ -494,6 +494,11 @@ func convMapToTarget(source interface{}, target reflect.Type) (interface{}, erro
 		if err != nil {
 			return nil, err
 		}
+		if evalue == nil {
+			// keep the key: a zero reflect.Value would delete it
+			result.SetMapIndex(k, reflect.Zero(target.Elem()))
+			continue
+		}
 		result.SetMapIndex(k, reflect.ValueOf(evalue))
 	}
 	return result.Interface(), nil
@@ -509,6 +514,11 @@ func convArrayTypeToTarget(source interface{}, target reflect.Type) (interface{}
 		evalue, err := convTypeToTarget(sourceValue.Index(i).Interface(), target.Elem())
 		if err != nil {
 			return nil, err
+		}
+		if evalue == nil {
+			// a null element becomes the zero value of the element type
+			sliceValue = reflect.Append(sliceValue, reflect.Zero(target.Elem()))
+			continue
 		}
 		sliceValue = reflect.Append(sliceValue, reflect.ValueOf(evalue))
 	}
